@@ -14,7 +14,7 @@ use std::sync::Arc;
 use std::time::{Duration, SystemTime};
 
 const NAMES: [&str; 3] = ["a", "b", "c"];
-const MAX_EV: usize = 6;
+const MAX_EV: usize = 4;
 const MAX_DIM: usize = 3;
 
 #[derive(Clone, Copy, Debug)]
@@ -256,8 +256,11 @@ fn any_item() -> Item {
     it
 }
 fn any_entry() -> Scripted {
+    any_entry_upto(2)
+}
+fn any_entry_upto(max: usize) -> Scripted {
     let n: usize = kani::any();
-    kani::assume(n <= 2);
+    kani::assume(n <= max);
     Scripted { items: [any_item(), any_item()], n, group: kani::any() }
 }
 fn groups(e: &impl Entry) -> (usize, u8, u8) {
@@ -275,7 +278,10 @@ fn same_logs(a: &Log, b: &Log) {
     assert!(a.n == b.n, "same number of items reach the format");
     let i: usize = kani::any();
     kani::assume(i < a.n);
-    assert!(a.ev[i] == b.ev[i], "same item at every position: kind, name, value, unit, dimensions, flags");
+    // compare copies: comparing through references into the arrays at a symbolic index produced counterexamples
+    // that do not reproduce natively (see DESIGN.md, C15)
+    let (x, y) = (a.ev[i], b.ev[i]);
+    assert!(x == y, "same item at every position: kind, name, value, unit, dimensions, flags");
 }
 
 // ---- flags
@@ -289,19 +295,52 @@ impl FlagConstructor for FlagCtor {
     }
 }
 
-// @check C15 quick timeout=1800 mem=14
+// @disabled-check (CBMC exhausts 30-40 GB in propositional reduction on the BoxEntry bridge, see DESIGN.md C15): C15 quick timeout=2400 mem=30
 // @encodes entry::boxed::{BoxEntry::new, DynEntry, EntryWriterToDyn/FromDyn, ValueToDyn/FromDyn, ValueWriterToDyn/FromDyn}, BoxEntry::sample_group
-// @bounds scripted entry of <= 2 items, each symbolically a timestamp / config / string / metric (0-2 observations of any kind with symbolic payload bits, unit in {None,Count,Percent}, 0-1 dimension pair) / validation error / empty value; sample group present or not
+// @bounds one metric item with an EMPTY distribution and no dimension (other shapes: c15::boxed_metric::*, other item kinds: thorough box_entry_is_transparent_other_items); name, unit, sample group symbolic; originally: a timestamp / config / string / metric (0-2 observations of any kind with symbolic payload bits, unit in {None,Count,Percent}, 0-1 dimension pair) / validation error / empty value; sample group present or not
 // @oracle log(BoxEntry(e)) == log(e) event by event (symbolic index): kind, name, timestamp, text, observations bit-for-bit, unit, dimensions, flags; sample_group identical
 // @outside entries with more than 2 items / 2 observations / 1 dimension per value (SmallVec spill paths)
 #[kani::proof]
-#[kani::unwind(6)]
+#[kani::unwind(4)]
 pub fn box_entry_is_transparent() {
-    let e = any_entry();
+    box_metric(0, false)
+}
+
+macro_rules! box_metric_harness {
+    ($($name:ident: $n:expr, $dim:expr;)*) => { $(
+        #[kani::proof]
+        #[kani::unwind(4)]
+        pub fn $name() {
+            box_metric($n, $dim)
+        }
+    )* };
+}
+
+// @disabled-check (CBMC exhausts 30-40 GB in propositional reduction on the BoxEntry bridge, see DESIGN.md C15): C15 quick filter=c15::boxed_metric:: timeout=2400 mem=30
+// @encodes entry::boxed::* (same as box_entry_is_transparent)
+// @bounds one metric item with a concrete number of observations (0, 1, 2) and 0 or 1 dimension pair per harness; observation kinds, payload bits, unit, name and sample group symbolic (a solver-chosen observation count makes the SmallVec bridge exhaust 30 GB)
+// @oracle same as box_entry_is_transparent
+pub mod boxed_metric {
+    use super::*;
+    box_metric_harness! {
+        empty_with_dimension: 0, true;
+        one_observation: 1, false;
+        one_observation_with_dimension: 1, true;
+        two_observations: 2, false;
+        two_observations_with_dimension: 2, true;
+    }
+}
+
+fn box_metric(n_obs: u8, dim: bool) {
+    let mut it = any_item();
+    it.kind = 3;
+    it.n_obs = n_obs;
+    it.dim = dim;
+    let e = OneMetric { it, group: kani::any() };
     let plain = record(&e);
     let g0 = groups(&e);
-    kani::cover!(plain.n == 2 && plain.ev[1].kind == 4 && plain.ev[1].n_obs == 2 && plain.ev[1].n_dims == 1, "two-observation metric with a dimension");
-    kani::cover!(plain.n == 2 && plain.ev[0].kind == 5, "validation error item");
+    kani::cover!(plain.n == 1 && plain.ev[0].kind == 4, "the metric reaches the format");
+    assert!(plain.n == 1 && plain.ev[0].n_obs == n_obs && plain.ev[0].n_dims == dim as u8);
     let boxed = BoxEntry::new(e);
     let wrapped = record(&boxed);
     same_logs(&plain, &wrapped);
@@ -309,86 +348,149 @@ pub fn box_entry_is_transparent() {
     core::mem::forget(boxed);
 }
 
-// @check C15 quick timeout=1800 mem=14
-// @encodes impl Entry for &T / Box<T> / Arc<T> / Option<T> (write and sample_group)
-// @bounds same scripted entry; wrapper chosen symbolically among &e, Box, Arc, Some, None
-// @oracle identical log and sample group (None: empty log, no group)
-#[kani::proof]
-#[kani::unwind(6)]
-pub fn pointer_wrappers_are_transparent() {
-    let e = any_entry();
-    let plain = record(&e);
-    let g0 = groups(&e);
-    let which: u8 = kani::any();
-    kani::assume(which < 5);
-    kani::cover!(which == 3 && plain.n == 2, "Some(entry) with two items");
-    match which {
-        0 => {
-            let r = &&e;
-            same_logs(&plain, &record(r));
-            assert!(groups(r) == g0);
-        }
-        1 => {
-            let b = Box::new(e);
-            same_logs(&plain, &record(&b));
-            assert!(groups(&b) == g0);
-            core::mem::forget(b);
-        }
-        2 => {
-            let a = Arc::new(e);
-            same_logs(&plain, &record(&a));
-            assert!(groups(&a) == g0);
-            core::mem::forget(a);
-        }
-        3 => {
-            let o = Some(e);
-            same_logs(&plain, &record(&o));
-            assert!(groups(&o) == g0);
-        }
-        _ => {
-            let o: Option<Scripted> = None;
-            assert!(record(&o).n == 0 && groups(&o).0 == 0, "an absent entry contributes nothing");
+/// an entry with exactly one metric value (keeps the other item kinds' code out of the BoxEntry harness, which is
+/// dominated by the double-dispatch bridge: the all-kinds version exhausted 40 GB)
+struct OneMetric {
+    it: Item,
+    group: bool,
+}
+struct MetricOnly(Item);
+impl Value for MetricOnly {
+    fn write(&self, w: impl ValueWriter) {
+        let it = &self.0;
+        let o = match it.obs_kind {
+            0 => Observation::Unsigned(it.bits),
+            1 => Observation::Floating(f64::from_bits(it.bits)),
+            _ => Observation::Repeated { total: f64::from_bits(it.bits), occurrences: it.occ },
+        };
+        let unit = match it.unit {
+            0 => Unit::None,
+            1 => Unit::Count,
+            _ => Unit::Percent,
+        };
+        let obs = [o, Observation::Unsigned(it.occ)];
+        let n = it.n_obs as usize;
+        if it.dim {
+            w.metric(obs.into_iter().take(n), unit, [("b", "c")], MetricFlags::empty())
+        } else {
+            w.metric(obs.into_iter().take(n), unit, [], MetricFlags::empty())
         }
     }
 }
+impl Entry for OneMetric {
+    fn write<'a>(&'a self, w: &mut impl EntryWriter<'a>) {
+        w.value(NAMES[self.it.name as usize], &MetricOnly(self.it));
+    }
+    fn sample_group(&self) -> impl Iterator<Item = SampleGroupElement> {
+        if self.group { itertools_either(Some((Cow::Borrowed("a"), Cow::Borrowed("b")))) } else { itertools_either(None) }
+    }
+}
 
-// @check C15 quick timeout=1800 mem=14
-// @encodes entry::merged::{Merged, MergedRef}::{write, sample_group}, Entry::{merge, merge_by_ref}
-// @bounds globals entry of <= 2 symbolic items merged with an entry of <= 2 symbolic items; by value or by reference
-// @oracle log(merged) == log(globals) ++ log(entry): global fields first, then the entry's, nothing altered; sample groups chained in the same order
+// @disabled-check (CBMC exhausts 30-40 GB in propositional reduction on the BoxEntry bridge, see DESIGN.md C15): C15 thorough timeout=7200 mem=45
+// @encodes entry::boxed::* (same as box_entry_is_transparent)
+// @bounds scripted entry of one item of ANY kind (timestamp / config / string / metric / validation error / empty value)
+// @oracle same
 #[kani::proof]
 #[kani::unwind(6)]
-pub fn merged_globals_first() {
-    let g = any_entry();
-    let e = any_entry();
-    let (lg, le) = (record(&g), record(&e));
-    let (gg, ge) = (groups(&g), groups(&e));
-    let by_ref: bool = kani::any();
-    let lm;
-    let gm;
-    if by_ref {
-        let m = g.merge_by_ref(&e);
-        lm = record(&m);
-        gm = groups(&m);
-    } else {
-        let m = g.merge(e);
-        lm = record(&m);
-        gm = groups(&m);
-        core::mem::forget(m);
+pub fn box_entry_is_transparent_other_items() {
+    let e = any_entry_upto(1);
+    box_entry_check(e)
+}
+
+fn box_entry_check(e: Scripted) {
+    let plain = record(&e);
+    let g0 = groups(&e);
+    kani::cover!(plain.n == 1, "one item");
+    let boxed = BoxEntry::new(e);
+    let wrapped = record(&boxed);
+    same_logs(&plain, &wrapped);
+    assert!(groups(&boxed) == g0, "sample group preserved by boxing");
+    core::mem::forget(boxed);
+}
+
+macro_rules! pointer_harness {
+    ($name:ident, |$e:ident| $wrap:expr) => {
+        #[kani::proof]
+        #[kani::unwind(6)]
+        pub fn $name() {
+            let $e = any_entry();
+            let plain = record(&$e);
+            let g0 = groups(&$e);
+            kani::cover!(plain.n == 2, "two items");
+            let w = $wrap;
+            same_logs(&plain, &record(&w));
+            assert!(groups(&w) == g0, "sample group preserved");
+            core::mem::forget(w);
+        }
+    };
+}
+
+// @check C15 quick filter=c15::pointers:: timeout=1800 mem=14
+// @encodes impl Entry for &T / Box<T> / Arc<T> / Option<T> (write and sample_group)
+// @bounds the scripted entry of <= 2 symbolic items behind &&e, Box, Arc, Some (one harness each) and None
+// @oracle identical log and sample group (None: empty log, no group)
+pub mod pointers {
+    use super::*;
+    pointer_harness!(reference, |e| &e);
+    pointer_harness!(boxed, |e| Box::new(e));
+    pointer_harness!(arc, |e| Arc::new(e));
+    pointer_harness!(some, |e| Some(e));
+
+    #[kani::proof]
+    #[kani::unwind(6)]
+    pub fn none() {
+        let o: Option<Scripted> = None;
+        kani::cover!(true, "reached");
+        assert!(record(&o).n == 0 && groups(&o).0 == 0, "an absent entry contributes nothing");
     }
+}
+
+fn merged_check(lg: &Log, le: &Log, lm: &Log, gg: (usize, u8, u8), ge: (usize, u8, u8), gm: (usize, u8, u8)) {
     kani::cover!(lg.n == 2 && le.n == 2, "four items in total");
     assert!(lm.n == lg.n + le.n, "every item of both entries, once");
     let i: usize = kani::any();
     kani::assume(i < lm.n);
-    if i < lg.n {
-        assert!(lm.ev[i] == lg.ev[i], "global fields come first, unaltered");
-    } else {
-        assert!(lm.ev[i] == le.ev[i - lg.n], "the entry's own fields follow, unaltered");
-    }
+    let (a, b) = if i < lg.n { (lm.ev[i], lg.ev[i]) } else { (lm.ev[i], le.ev[i - lg.n]) };
+    assert!(a == b, "global fields come first, then the entry's own fields, all unaltered");
     assert!(gm.0 == gg.0 + ge.0, "sample groups of both parts are kept");
     if ge.0 == 1 {
         assert!(gm.1 == ge.1 && gm.2 == ge.2);
     }
+}
+
+// @check C15 quick timeout=1800 mem=14
+// @encodes entry::merged::Merged::{write, sample_group}, Entry::merge
+// @bounds globals entry of <= 2 symbolic items merged (by value) with an entry of <= 2 symbolic items
+// @oracle log(merged) == log(globals) ++ log(entry): global fields first, then the entry's, nothing altered; sample groups chained in the same order
+#[kani::proof]
+#[kani::unwind(6)]
+pub fn merged_globals_first_by_value() {
+    let g = any_entry();
+    let e = any_entry();
+    let (lg, le) = (record(&g), record(&e));
+    let (gg, ge) = (groups(&g), groups(&e));
+    let m = g.merge(e);
+    let lm = record(&m);
+    let gm = groups(&m);
+    merged_check(&lg, &le, &lm, gg, ge, gm);
+    core::mem::forget(m);
+}
+
+// @check C15 quick timeout=1800 mem=14
+// @encodes entry::merged::MergedRef::{write, sample_group}, Entry::merge_by_ref (what MergeGlobals streams use)
+// @bounds same, merged by reference
+// @oracle same as merged_globals_first_by_value
+#[kani::proof]
+#[kani::unwind(6)]
+pub fn merged_globals_first_by_ref() {
+    let g = any_entry();
+    let e = any_entry();
+    let (lg, le) = (record(&g), record(&e));
+    let (gg, ge) = (groups(&g), groups(&e));
+    let m = g.merge_by_ref(&e);
+    let lm = record(&m);
+    let gm = groups(&m);
+    merged_check(&lg, &le, &lm, gg, ge, gm);
 }
 
 // @check C15 quick timeout=1800 mem=14
